@@ -55,6 +55,31 @@ CLAIMED = {
    note="Trusted: Lean kernel for the verdict half; rustc as oracle for acceptance; generator coverage bounds what the sweep sees (distribution in evidence).",
    technique="Lean 4 refinement proof (verdict) + exhaustive form x position sweep through rustc (acceptance)",
    design="5/C11"),
+ "C07": dict(
+   text="Proof (Lean 4 kernel). C07_every_binder_reserved / C07_binders_reserved: every name the expansion binds around user expressions is rendered with a reserved double-underscore prefix (positional binders, map/set binders, the root binding and, since a fix: commit, the bindings of destructured struct fields `__assert_struct_field_<field>`), so no caller variable with an ordinary name - in particular none named like a field or sibling field - can be captured. The pinned tree bound fields under their own names (`User { name: == name }` compared the field with itself); repaired. Tied to the code by T2 (binder tokens) and by twin programs through rustc: 60 (hole kind x colliding name) pairs, each compiled under the colliding name and under a fresh name; outcomes must agree. Open finding: reserved `__` helper names themselves have call-site hygiene.",
+   note="Trusted: Lean kernel; proc-macro hygiene is modelled as call-site for quote! identifiers; rustc's name resolution is the oracle in the twin programs.",
+   technique="Lean 4 proof over binder names of the generator model + token-exact T2 + twin programs through rustc",
+   design="5/C07"),
+ "C08": dict(
+   text="Proof (Lean 4 kernel) of the syntactic facts: the root pattern is expanded on the binding `__assert_struct_value` (the asserted expression's tokens occur once, in the let - C08_root_bound_once, with T2 tying the let to the real tokens); per-template evaluation counts on the passing / failing path (C08_string_once, C08_comparison_twice_on_failure); no push is evaluated when a test passes (C08_debug_only_on_failure). Checked against compiled programs with counting wrappers around the asserted expression and around a getter in a field path, for every form, passing and failing. Open findings (kernel-stated, replayed): chains re-evaluated on the failing path, per-entry evaluation for maps / wildcard structs, zero evaluations for assertion-free patterns.",
+   note="Trusted: Lean kernel; evaluation counts are syntactic occurrence counts in the IR, validated by the counters; `.await` and custom Index impls are not instrumented.",
+   technique="Lean 4 proof of syntactic evaluation counts + T2 + instrumented programs (counters)",
+   design="5/C08"),
+ "C12": dict(
+   text="Proof (Lean 4 kernel). C12_struct_pat_faithful: the native pattern lists exactly the deduplicated written fields and `..` iff written; C12_omitted_field_rejected, C12_unknown_field_rejected, C12_rest_allows_omission, C12_variant_arity, C12_tuple_arity: in the model of rustc's destructuring rules an omitted or unknown field / wrong arity has no verdict (rejected). Tied by T2 and by an exhaustive accept/reject matrix through rustc: every subset of the fields of 5 struct / struct-variant shapes with and without `..`, unknown fields, wrong type / variant names, wildcard structs with and without `..`, tuple and variant arities 0-5. A defect found by the matrix (`Path { .. }` expanded to invalid Rust) was repaired.",
+   note="Trusted: Lean kernel; rustc's E0026/E0027/E0023/E0308 rules are modelled (the `none` cases of exec/frontier) and validated on the matrix; the wildcard-struct `..` requirement is a parser property (tied by T1).",
+   technique="Lean 4 proof over the generator model and the destructuring judgment + exhaustive accept/reject matrix through rustc",
+   design="5/C12"),
+ "C14": dict(
+   text="Proof (Lean 4 kernel). genNodes_ids: the emitted node definitions are exactly the pattern's nodes in pattern order (a bare `..` in a slice has none); C14_ids_nodup: defined once given distinct ids; C14_refs_defined: every node the assertion code refers to is defined (mutual induction over the generator model); C14_root_node / C14_root_def. Tied by T2 (node definition tokens, references, locations; every expansion parsed with syn as a Rust block) and by T1 histories: every invocation expanded in two different histories on one thread (the second interleaved with rejected inputs), outputs compared byte for byte. Two defects found (slice tree, `Path { .. }` invalid Rust) were repaired.",
+   note="Trusted: Lean kernel; uniqueness of parser-assigned ids is a hypothesis here (counter behaviour is observed by the history check; the parser model is a growth item).",
+   technique="Lean 4 proof over the node-table model + token-exact T2 + history differential in process",
+   design="5/C14"),
+ "C19": dict(
+   text="Proof (Lean 4 kernel). C19_slice_wording: a slice pattern with `..` is never described as exact and an exact one is described with the number of elements written (`..` is not counted: C19_slice_node, sliceChildIds_length, hasSliceRest_iff); C19_set_exactness; C19_eq_expected_text; C19_variant_text; C19_map_entries. The pinned tree violated the slice statements (repaired). Tied by T2 (node definitions), T4 (real error_label over every node kind and arity) and T3 (every position of `..` x arity 0-4 x vector length 0-5, set patterns: label wording vs the pattern as written; generated corpora: labels vs the model).",
+   note="Trusted: Lean kernel; correspondence sampled / exhaustive as described.",
+   technique="Lean 4 proof over the node-kind and label models + exhaustive T4/T3 label matrices",
+   design="5/C19"),
 }
 
 def main():
